@@ -131,6 +131,16 @@ func c16SameRow(a, b parquet.Row) bool {
 
 func c16Churn(seed uint64, round int) {
 	// unrelated readers and writers in the same process reuse the pools
+	// rows taken apart by reflection (Schema.Deconstruct and its scratch space): Writer.Write(any), Buffer.Write(any)
+	out := new(bytes.Buffer)
+	w := parquet.NewWriter(out, wSchema)
+	b := parquet.NewBuffer(wSchema)
+	for i := 0; i < 12; i++ {
+		row := wRowOf(5000*round+i, seed+uint64(round))
+		w.Write(&row)
+		b.Write(&row)
+	}
+	w.Close()
 	data := c16File(round%2 == 0, 1+round%2, seed+uint64(round), 1000*round)
 	f, err := parquet.OpenFile(bytes.NewReader(data), int64(len(data)))
 	if err == nil {
